@@ -985,6 +985,8 @@ def attr_cases(tier, rng):
         for port in [0, 1, 0x2112, 0x2113, 0xffff, 0x8000] + [rng.randrange(65536) for _ in range(20)]:
             for ip in ([0, 0, 0, 0], [255] * 4, [0x21, 0x12, 0xa4, 0x42], [rng.randrange(256) for _ in range(4)]):
                 add(ty, [0, 1, port >> 8, port & 255] + ip, src="v4 address")
+            for shaped_ip in ([0] * 12 + [192, 0, 2, 1], [0] * 15 + [1], [1, 2, 3, 4, 5, 6, 7, 8, 0x80, 0x28, 0, 4, 9, 9, 9, 9]):
+                add(ty, [0, 2, port >> 8, port & 255] + shaped_ip, src="shaped v6 address")
             v4m = [0] * 10 + [255, 255, 192, 0, 2, 1]                       # ::ffff:192.0.2.1
             xkey = [0x21, 0x12, 0xa4, 0x42] + TID0
             v4m_wire = [a ^ b for a, b in zip(v4m, xkey)]                   # its XORed form reads ::ffff:... under TID0
@@ -1177,6 +1179,16 @@ def c13(rep, tier, seed, wd):
         else:
             ip = rng.choice([[0] * 16, [255] * 16, [0x21, 0x12, 0xa4, 0x42] + tid, [rng.randrange(256) for _ in range(16)]])
             cases.append({"type": 32, "value": [0, 2, port >> 8, port & 255] + ip, "tid": tid, "src": "random v6"})
+    # wire forms of a particular shape: IPv4-mapped / IPv4-compatible / zero / loopback looking, and values that end like
+    # a FINGERPRINT or MESSAGE-INTEGRITY attribute header
+    for k in range(60 if tier == "quick" else 600):
+        tid = rng.choice([TID0, [0] * 12, [rng.randrange(256) for _ in range(12)]])
+        port = rng.choice([0, 0x2112, rng.randrange(65536)])
+        r4 = [rng.randrange(256) for _ in range(4)]
+        r8 = [rng.randrange(256) for _ in range(8)]
+        for ip in ([0] * 10 + [255, 255] + r4, [0] * 12 + r4, [0] * 15 + [1], r8 + [0x80, 0x28, 0, 4] + r4, r8 + [0, 8, 0, 20] + r4,
+                   [0x20, 0x01, 0x0d, 0xb8] + [0] * 4 + [0x80, 0x28, 0, 4, 0, 0, 0, 1]):
+            cases.append({"type": 32, "value": [0, 2, port >> 8, port & 255] + ip, "tid": tid, "src": "shaped v6 wire form"})
     # all ports once
     for port in range(0, 65536, 1 if tier != "quick" else 17):
         cases.append({"type": 32, "value": [0, 1, port >> 8, port & 255, 10, 0, 0, 1], "tid": TID0, "src": "port sweep"})
@@ -1202,6 +1214,30 @@ def c13(rep, tier, seed, wd):
         body = front + xma
         mcases.append({"bytes": [1, 1, 0, len(body), 0x21, 0x12, 0xa4, 0x42] + TID0 + body, "lookup": [0x20, t],
                        "src": "XOR-MAPPED-ADDRESS behind an attribute of type %#06x" % t})
+    # ... and messages that END in an IPv6 XOR-MAPPED-ADDRESS whose wire form ends like a FINGERPRINT attribute, is
+    # IPv4-mapped, or is all zero (success responses without any sealing: the address must survive the wire)
+    shaped = []
+    for k in range(40 if tier == "quick" else 400):
+        r4 = [rng.randrange(256) for _ in range(4)]
+        r8 = [rng.randrange(256) for _ in range(8)]
+        tidk = rng.choice([TID0, [0] * 12, [rng.randrange(256) for _ in range(12)]])
+        for ip in (r8 + [0x80, 0x28, 0, 4] + r4, [0] * 10 + [255, 255] + r4, [0] * 16, r8 + [0, 8, 0, 20] + r4, r8 + [0, 0x1c, 0, 32] + r4):
+            val = [0, 2, 0x12, 0x34] + ip
+            front = rng.choice([[], [0x80, 0x22, 0, 3, 65, 66, 67, 0]])
+            body = front + [0, 0x20, 0, 20] + val
+            shaped.append({"bytes": [1, 1, 0, len(body), 0x21, 0x12, 0xa4, 0x42] + tidk + body, "lookup": [0x20], "xval": val, "xtid": tidk,
+                           "src": "message ending in an XOR-MAPPED-ADDRESS with wire form %s" % val})
+    swant = run_attr_pipeline([{"type": 32, "value": c["xval"], "tid": c["xtid"], "src": "shaped"} for c in shaped], wd, "xorshaped")
+    for (case, obs, exp, hang), (_c, _o, aexp) in zip(run_pipeline([{k: v for k, v in c.items() if k not in ("xval", "xtid")} for c in shaped], wd, "xorshaped", trace=False), swant):
+        must, asis = compare(case, obs, exp, hang)
+        wa = aexp["fields"]["addr"]
+        wa = {"fam": wa["fam"], "ip": wa["ip"], "port": wa["port"]}
+        xm = [t for t in (obs or {}).get("acc", {}).get("typed", []) if isinstance(t, dict) and t.get("type") == 0x20] if obs else []
+        if obs and obs["parse"].get("ok") and (len(xm) != 1 or xm[0].get("addr") != wa):
+            must.append((["C13"], "the XOR-MAPPED-ADDRESS of the message decodes to %s, specification %s" % (json.dumps([x.get("addr") for x in xm]), json.dumps(wa))))
+        for pids, what in must:
+            # whatever goes wrong with such a message, the address did not survive the wire
+            rep.violation("%s: %s" % (case["src"], what), {"kind": "codec_case", "case": slim(case)})
     # what that value decodes to is the specification's business (StunAttrs via the attribute judge)
     want_addr = run_attr_pipeline([{"type": 32, "value": [0, 1, 0x2c, 0x88, 0xea, 0x12, 0xd5, 0x45], "tid": TID0, "src": "front"}], wd, "xorwant")[0][2]["fields"]["addr"]
     want_addr = {"fam": want_addr["fam"], "ip": want_addr["ip"], "port": want_addr["port"]}
